@@ -46,7 +46,7 @@ def dump (e : Entry) : String :=
     s!"p={strS (getStr .pathname e)}", s!"un={strS (getStr .uname e)}", s!"gn={strS (getStr .gname e)}",
     s!"sp={strS (getStr .sourcepath e)}",
     s!"hl={strS (hardlink e)},{b01 (hardlinkIsSet e)}", s!"sl={strS (symlink e)}",
-    s!"ff={ff.1},{ff.2}", s!"slt={symlinkType e}",
+    s!"ff={ff.1},{ff.2}", s!"fft={strS (fflagsTextV e)}", s!"slt={symlinkType e}",
     s!"enc={b01 (isDataEncrypted e)},{b01 (isMetadataEncrypted e)},{isEncrypted e}",
     s!"sps={sps}", s!"xa={xa}", s!"mac={mac}",
     s!"dg={dumpDigests e}", s!"dgx={b01 ((digest e 7).isNone && (digest e 0).isNone)}"]
@@ -101,7 +101,7 @@ def parseOp (w : List String) : Option Op :=
     | "sparse_clear" => some .sparseClear | "sparse_count" => some .sparseCount
     | "sparse_reset" => some .sparseReset | "sparse_next" => some .sparseNext
     | "xattr_clear" => some .xattrClear | "xattr_reset" => some .xattrReset | "xattr_next" => some .xattrNext
-    | "stat" => some .stat | "clear" => some .clear
+    | "stat" => some .stat | "clear" => some .clear | "fflags_text" => some .fflagsText
     | _ => none
   | [op, a] =>
     let int (k : Int → Op) : Option Op := a.toInt?.map k
@@ -120,6 +120,7 @@ def parseOp (w : List String) : Option Op :=
     | "set_is_data_encrypted" => int fun i => .setIsDataEncrypted (charTruth i)
     | "set_is_metadata_encrypted" => int fun i => .setIsMetadataEncrypted (charTruth i)
     | "copy_mac_metadata" => str .copyMacMetadata
+    | "copy_fflags_text" | "copy_fflags_text_w" => if a == "~" then none else (parseHex a).map .copyFflagsText
     | "set_pathname" | "set_pathname_utf8" | "copy_pathname" | "copy_pathname_w" | "update_pathname_utf8" =>
       str (.setStr .pathname)
     | "set_uname" | "set_uname_utf8" | "copy_uname" | "copy_uname_w" | "update_uname_utf8" => str (.setStr .uname)
@@ -160,6 +161,14 @@ def retOf (name : String) (e : Entry) (op : Op) : String :=
     | some (n, v) => s!"ok,{toHex n},{toHex v},{v.length}"
   | .setDigest t d => if (setDigest e t d).2 then "ok" else "warn"
   | .stat => statS (stat e).2
+  | .fflagsText => strS (fflagsText e).2
+  | .copyFflagsText s =>
+    match (strtofflags s).2.2 with
+    | none => "null"
+    | some off =>
+      -- the wide variant reports the position in characters: bytes that are not UTF-8 continuation bytes
+      if name == "copy_fflags_text_w" then toString ((s.take off).filter fun b => b / 64 != 2).length
+      else toString off
   | .copyHardlink v =>
     if name == "update_hardlink_utf8" then (if v.isNone && e.has fSYMLINK then "0" else "1") else "-"
   | .setSymlink v =>
